@@ -710,7 +710,11 @@ func (e *Exec) callFunc0(st *State, fn *types.Func, recv *Val, args []Val, x *as
 	// generic bodies are written over type parameters; inlining them at a concrete instantiation would mix sorts
 	osig, _ := fn.Origin().Type().(*types.Signature)
 	generic := osig != nil && (osig.TypeParams() != nil || osig.RecvTypeParams() != nil)
-	if decl, pkg := e.prog.findDecl(fn); decl != nil && decl.Body != nil && !generic {
+	noInline := false
+	if tc := e.frames[0].contract; tc != nil && tc.Opts["inline"] == "off" && e.inContract == 0 {
+		noInline = true // the contract only constrains call structure: callees without contracts stay opaque
+	}
+	if decl, pkg := e.prog.findDecl(fn); decl != nil && decl.Body != nil && !generic && !noInline {
 		full := shortName(pkgPath) + "." + key
 		depthOK := len(e.frames) < 8
 		rec := false
